@@ -1746,6 +1746,15 @@ impl Model {
         // NOTE: We pass pending_lp_constraints separately so LP can use AST-extracted constraints
         // without scanning the materialized propagators (avoiding duplication)
         self.materialize_pending_asts();
+
+        // Materialization creates auxiliary variables, so the memory limit can be crossed here as well;
+        // the placeholder variables created past the limit must not be searched
+        if self.memory_limit_exceeded {
+            return Err(SolverError::MemoryLimit {
+                usage_mb: Some(self.estimated_memory_mb() as usize),
+                limit_mb: self.config.max_memory_mb.map(|x| x as usize),
+            });
+        }
         
         // STEP 2: Validate the model for common errors
         let validator = crate::core::validation::ModelValidator::new(&self.vars, &self.props);
